@@ -82,10 +82,19 @@ Set(st, Fl, Val) ==
           ELSE [out |-> {Success}, next |-> [st EXCEPT ![f] = Val]]
 
 (* effects of the changeable flags *)
-(* 7.11.2.5: a double quoted list token "ab" is read as ... *)
-ReadString(st) == CASE st["double_quotes"] = A("chars") -> ListOf(<<A("a"), A("b")>>)
-                    [] st["double_quotes"] = A("codes") -> ListOf(<<I(97), I(98)>>)
-                    [] st["double_quotes"] = A("atom")  -> A("ab")
+(* 7.11.2.5: a double quoted list token is read as a list of one-char atoms, a list of character codes or   *)
+(* an atom, "depending on the value of the flag double_quotes"; the empty token "" is the boundary case:     *)
+(* it reads as [] under chars and codes and as the empty atom '' under atom (6.3.7, 6.4.6).                   *)
+CodeOf(ch) == CASE ch = "a" -> 97 [] ch = "b" -> 98
+RECURSIVE CatNames(_)
+CatNames(q) == IF q = <<>> THEN "" ELSE Head(q) \o CatNames(Tail(q))
+DQ(st, chs) == CASE st["double_quotes"] = A("chars") -> ListOf([j \in 1..Len(chs) |-> A(chs[j])])
+                 [] st["double_quotes"] = A("codes") -> ListOf([j \in 1..Len(chs) |-> I(CodeOf(chs[j]))])
+                 [] st["double_quotes"] = A("atom")  -> A(CatNames(chs))
+(* the term read from the probe text  t("ab", "", "a", f("", "b"), ["", "ab"]).  *)
+ReadString(st) == C("t", <<DQ(st, <<"a", "b">>), DQ(st, <<>>), DQ(st, <<"a">>),
+                          C2("f", DQ(st, <<>>), DQ(st, <<"b">>)),
+                          ListOf(<<DQ(st, <<>>), DQ(st, <<"a", "b">>)>>)>>)
 (* doc comment: occurs_check false: X = f(X) creates a cyclic term (succeeds); true: "unification has this check  *)
 (* enabled" (fails); error: "throws an exception when a cyclic term is created" (the Formal is not documented)    *)
 OccursProbe(st) == CASE st["occurs_check"] = A("false") -> "succeeds"
